@@ -175,16 +175,28 @@ impl Stats {
             }
         }
         if self.first_samples.len() < 1 {
-            self.first_samples
-                .push(serde_json::to_value(case).unwrap_or(Value::Null));
+            self.first_samples.push(sample_value(case));
         }
         if p.nontrivial {
             let fresh = self.nontrivial.insert(digest);
             if fresh && self.nontrivial_samples.len() < 1 {
-                self.nontrivial_samples
-                    .push(serde_json::to_value(case).unwrap_or(Value::Null));
+                self.nontrivial_samples.push(sample_value(case));
             }
         }
+    }
+}
+
+/// a generated case as it appears among the samples of the evidence file; a case whose JSON text is
+/// longer than 6000 characters (a matrix with tens of thousands of ones) is represented by its
+/// length and its first 1500 characters, so that evidence files stay small
+fn sample_value<C: Serialize>(case: &C) -> Value {
+    let v = serde_json::to_value(case).unwrap_or(Value::Null);
+    let text = v.to_string();
+    if text.len() <= 6000 {
+        v
+    } else {
+        let head: String = text.chars().take(1500).collect();
+        json!({"abridged": true, "json_length": text.len(), "begins": head})
     }
 }
 
